@@ -35,14 +35,14 @@ TRUSTED = [
     "matrix product, conjugate transpose, |psi><psi|, scalar matrix; row-major reshape of Qobj.full()",
     "compact gate matrices (Gate.get_compact_qobj) are abstract matrices here: their values are property C09",
     "block matrices of _gate_sequence_product are modelled as formal circuits (their value is the circuit's semantics); "
-    "arity of every U_list entry = length of its index list (what propagators(expand=False) + get_all_qubits() produce, GLOBALPHASE excepted)",
+    "arity of every U_list entry = length of its index list; an entry with an empty index list is a scalar matrix of any size (what propagators(expand=False) + get_all_qubits() produce)",
     "Python set iteration order = oracle `ord` (Permutation of the union); the fixed code sorts, so ord = ascending",
     "IEEE round-off not modelled (comparison to 1e-9); functional extensionality (Coq stdlib axiom) through Found/Lemmas.v",
 ]
 ASSUMES = [
     "circuits are measurement-free and without classical controls; qubit lists of a gate are duplicate-free and < N",
     "gsp_correct assumes ascending enumeration of the merged index set (true of the repaired code, refuted for CPython sets: gsp_refuted_unsorted)",
-    "compact product: every index list non-empty (GLOBALPHASE with inds [] is refused by the code: known finding)",
+    "compact product: index lists duplicate-free; an empty index list denotes a scalar factor (GLOBALPHASE propagator), which the repaired code takes out of the product",
 ]
 
 warnings.filterwarnings("ignore")
@@ -267,7 +267,7 @@ class MultSpy:
 GROUP = {"run_ket": "state-vector evolution", "unitary": "state-vector evolution", "oper": "state-vector evolution",
          "step": "step-by-step state-vector simulation", "run_dm": "density-matrix evolution", "dm_ket": "density-matrix evolution",
          "step_dm": "density-matrix evolution", "kept": "kept states", "kept_dm": "kept states", "expanded": "expanded propagators", "compact": "compact product",
-         "compact_phase_all": "compact product", "compact_phase_empty": "compact product (GLOBALPHASE with index list [])"}
+         "compact_phase_all": "compact product", "compact_phase_empty": "compact product"}
 
 
 def run_paths(case, want_trace=None):
@@ -460,8 +460,13 @@ def run_gsp(case):
     mats = []
     Us = []
     for inds in case["inds_list"]:
-        k = max(len(inds), 1)
-        M = rand_unitary(rs, k)
+        if len(inds) == 0:
+            # an operator without qubit indices is a scalar matrix (what propagators(expand=False) gives for GLOBALPHASE)
+            M = np.exp(1j * rs.uniform(-3, 3)) * np.eye(2 ** rs.randint(1, 4))
+            k = int(round(math.log2(len(M))))
+        else:
+            k = len(inds)
+            M = rand_unitary(rs, k)
         mats.append(M)
         Us.append(Qobj(M, dims=[[2] * k, [2] * k]))
     with MultSpy() as ms:
@@ -852,12 +857,11 @@ def process(corr, case, coq, einsum_seen):
     elif kind == "gsp":
         corr.tally("gsp-big" if len({q for l in case["inds_list"] for q in l}) >= 9 else "gsp")
         res, table, mats, err = run_gsp(case)
-        empty = any(len(l) == 0 for l in case["inds_list"])
         if res is None:
-            if not empty and case["inds_list"] and all(len(set(l)) == len(l) for l in case["inds_list"]):
+            if case["inds_list"] and all(len(set(l)) == len(l) for l in case["inds_list"]):
                 corr.oracle_fail(dict(case, path="compact"), err, "a product", "compact product raised on a well-formed input")
         else:
-            ok, detail = gsp_expected_ok(case, res, mats) if not empty else (False, "accepted an empty index list")
+            ok, detail = gsp_expected_ok(case, res, mats)
             if not ok:
                 corr.oracle_fail(dict(case, path="compact", set_orders=table), detail, "deviation < 1e-9",
                                  "compact gate_sequence_product differs from the ordered product")
@@ -1081,10 +1085,19 @@ def correspond(ctx):
         cases.append(gen_gsp(rng, big=False))
     for _ in range(ctx.n(14, 60)):
         cases.append(gen_gsp(rng, big=True))
-    # empty index lists are refused
-    for _ in range(ctx.n(6, 20)):
+    # empty index lists are scalar factors (GLOBALPHASE propagators); duplicate indices in one list are refused
+    for _ in range(ctx.n(20, 120)):
         c = gen_gsp(rng, big=False)
-        c["inds_list"].insert(rng.randrange(len(c["inds_list"]) + 1), [])
+        for _ in range(rng.randint(1, 3)):
+            c["inds_list"].insert(rng.randrange(len(c["inds_list"]) + 1), [])
+        if rng.random() < 0.15:
+            c["inds_list"] = [[] for _ in range(rng.randint(1, 3))]
+        cases.append(c)
+    for _ in range(ctx.n(8, 40)):
+        c = gen_gsp(rng, big=False)
+        l = rng.choice(c["inds_list"])
+        l.append(rng.choice(l))
+        c["malformed"] = "duplicate index"
         cases.append(c)
     for _ in range(ctx.n(250, 2000)):
         cases.append(gen_mult(rng))
